@@ -557,6 +557,12 @@ def term1(ctx, c):
             params = [p for p in f.params if p not in ("self", "cls")]
             from ..inline import flatten as _fl
             fnode = _fl(repo, f, depth=2, only={m_ for m_ in (f.cls.methods if f.cls else {}) if m_ not in ("process_mnemonics", "parse")})
+            # the recursion may run through a helper (process_mnemonics -> expansion_of -> process_mnemonics): the methods of the class that call back are read with it
+            partners = [m_ for n_, m_ in (f.cls.methods.items() if f.cls else []) if n_ != "process_mnemonics"
+                        and any(isinstance(x, ast.Call) and U(x.func).endswith("process_mnemonics") for x in ast.walk(m_.node))]
+            if partners:
+                fnode = ast.Module(body=[fnode] + [_fl(repo, m_, depth=1, only=set()) for m_ in partners], type_ignores=[])
+                params = params + [p_ for m_ in partners for p_ in m_.params if p_ not in ("self", "cls") and p_ not in params]
             for n in ast.walk(fnode):
                 if isinstance(n, ast.If) and isinstance(n.test, ast.Compare) and isinstance(n.test.ops[0], ast.In) and U(n.test.comparators[0]) in params \
                         and n.body and isinstance(n.body[-1], ast.Raise):
